@@ -308,7 +308,15 @@ pub fn run(ctx: &Ctx) -> Report {
             return;
         }
         let cmds = vec![Cmd::prepare(b"p"), Cmd::execute(1, &[], false)];
-        let scripts = vec![Script::PrepOk { id: 1, params: vec![], cols: vec![col.clone()] }, Script::Q(QProg { colsets: vec![vec![col.clone()]], ops, on_err: OnErr::Forget })];
+        // what PREPARE announced may differ from what the execution starts (a backend may only learn
+        // the exact type and signedness when it runs the statement): the row is decoded with the
+        // definition that came with the row
+        let announced = match rng.below(3) {
+            0 => col.clone(),
+            1 => Column { colflags: col.colflags ^ ColumnFlags::UNSIGNED_FLAG, ..col.clone() },
+            _ => Column { coltype: if col.coltype == ColumnType::MYSQL_TYPE_LONGLONG { ColumnType::MYSQL_TYPE_LONG } else { ColumnType::MYSQL_TYPE_LONGLONG }, colflags: col.colflags ^ ColumnFlags::UNSIGNED_FLAG, ..col.clone() },
+        };
+        let scripts = vec![Script::PrepOk { id: 1, params: vec![], cols: vec![announced] }, Script::Q(QProg { colsets: vec![vec![col.clone()]], ops, on_err: OnErr::Forget })];
         let obs = run_case(&varied_case(rng, cmds, scripts));
         rep.evaluations += 1;
         if harness_panic(&obs, rep) {
@@ -401,7 +409,9 @@ pub fn run(ctx: &Ctx) -> Report {
             }
             ops.push(QOp::Finish);
             cmds.push(Cmd::prepare(format!("p{}", k).as_bytes()));
-            scripts.push(Script::PrepOk { id: k as u32 + 1, params: vec![], cols: columns.clone() });
+            // a third of the statements were announced with the other signedness in every column
+            let announced: Vec<Column> = if rng.chance(1, 3) { columns.iter().map(|c| Column { colflags: c.colflags ^ ColumnFlags::UNSIGNED_FLAG, ..c.clone() }).collect() } else { columns.clone() };
+            scripts.push(Script::PrepOk { id: k as u32 + 1, params: vec![], cols: announced });
             wants.push(None);
             cmds.push(Cmd::execute(k as u32 + 1, &[], false));
             scripts.push(Script::Q(QProg { colsets: vec![columns], ops, on_err: OnErr::Drop }));
